@@ -1,12 +1,14 @@
 import TongoProofs.Lemmas.BocWriter
+import TongoProofs.Lemmas.BocOrderFinal
 /-! Property C01 — bag-of-cells serialisation round-trips and is canonical.
 
 `parseBoc` is the line-by-line model of the (repaired) Go reader, `emitBoc` the reference writer with every choice a
 conforming implementation has (3 magics, index, CRC, cache bits, reference width up to 4, offset width up to 8,
 several roots, cells with stored hashes, any topological order = any table whose refs point forward).
-`Writer.serializeOrdered` is what Go's `serializeBoc` writes once an order of the cells is fixed; the ORDER produced
-by importCell/reorderCells/revisit is not modelled — its validity is checked per input by this verified reader
-(op `boc.check` inside `go.writer`), see `order_valid` below. Property theorems only. -/
+`Writer.serializeOrdered` is what Go's `serializeBoc` writes once an order of the cells is fixed; `Order.orderWith`
+(TongoModel/BocOrder.lean) is the exact model of the ORDER produced by importCell/reorderCells/revisit, proved valid
+for every `special` predicate (`order_valid`), so that the whole writer round-trips (`roundtrip_go_writer`).
+Property theorems only. -/
 namespace Tongo.C01
 open Tongo Tongo.Boc
 
@@ -51,13 +53,44 @@ theorem roundtrip (t : Table) (roots : List Nat) (idx crc cache : Bool) (shouldC
     parseBoc (Writer.serializeOrdered t roots idx crc cache shouldCache) = .ok (t, roots) :=
   parse_emit _ t roots hv (Writer.params_ok t roots idx crc cache shouldCache hn hr1 hrn hlen)
 
-/-- What is NOT proved: that the order computed by importCell / reorderCells / revisit is a valid layout containing
-every distinct sub-cell exactly once. It is checked on every generated input by the verified reader used as an
-oracle (`go.writer`: LeanParse(GoBytes) canonical = canonical input, header cell count = number of distinct cells). -/
-def order_valid : Prop :=
-  ∀ (goOrder : Table → Table × List Nat) (t : Table), ValidLayout t [0] →
-    ValidLayout (goOrder t).1 (goOrder t).2 ∧
-      (goOrder t).2.map (Table.unfold (goOrder t).1 ((goOrder t).1.size + 1)) = [Table.unfold t (t.size + 1) 0]
+/-- The cell ORDER computed by Go (importRoots/importCell, reorderCells, revisit — `Order.orderWith`, an exact
+executable model tied to the code by the ops `boc.order` and `boc.serialize`) is valid for EVERY choice of the
+`special` predicate (the weight heuristic only instantiates it) and every presentation `t` of a cell DAG (rows = Go's
+`*Cell` objects, possibly structurally equal ones) whose de-duplication key identifies the unfolded tree:
+the ordering succeeds, the result is a `ValidLayout` in the sense of `parse_emit` (every reference points to a strictly
+later position, at most 4 of them, all in range, depth ≤ 1024), it stores every structurally distinct sub-cell exactly
+once (`once`, `all`: shared sub-trees are stored once), and its root positions unfold to the input trees. -/
+theorem order_valid {K : Type} [BEq K] [Hashable K] [LawfulBEq K] (t : Table) (roots : List Nat)
+    (key : Nat → Option K) (special : Array Int → Nat → Bool)
+    (hv : ValidLayout t roots) (hk : Order.KeyInjOn t key) :
+    ∃ o, Order.orderWith t key special roots = .ok o ∧ Order.OrderValid t roots o :=
+  Order.orderWith_valid t roots key special hv hk
+
+/-- Round trip of the whole Go writer: `serializeBocModel` (Go's order, then the header arithmetic of serializeBoc)
+succeeds, and the reader applied to its bytes returns the ordered table, whose roots unfold to the input trees — for
+all 2³ option sets. (Size conditions: fewer than 2²⁴ distinct cells, at least one root and not more roots than cells —
+always true for the single root of the public API —, the output is a Go slice.) -/
+theorem roundtrip_go_writer {K : Type} [BEq K] [Hashable K] [LawfulBEq K] (t : Table) (roots : List Nat)
+    (key : Nat → Option K) (idx crc cache : Bool) (hv : ValidLayout t roots) (hk : Order.KeyInjOn t key) :
+    ∃ o bs, Order.order t key roots = .ok o ∧ Order.serializeBocModel t key roots idx crc cache = .ok bs ∧
+      Order.OrderValid t roots o ∧
+      (o.table.size < 16777216 → 1 ≤ roots.length → roots.length ≤ o.table.size → bs.length < two63 →
+        parseBoc bs = .ok (o.table, o.roots)) := by
+  obtain ⟨o, ho, hval⟩ := Order.orderWith_valid t roots key Order.goSpecial hv hk
+  have hord : Order.order t key roots = .ok o := ho
+  refine ⟨o, Writer.serializeOrdered o.table o.roots idx crc cache o.cacheBits, hord,
+    by simp only [Order.serializeBocModel, hord], hval, ?_⟩
+  intro hn hr1 hrn hlen
+  have hrl : o.roots.length = roots.length := by
+    have := congrArg List.length hval.roots_eq
+    simpa using this
+  exact roundtrip o.table o.roots idx crc cache o.cacheBits hval.valid hn (by omega) (by omega) hlen
+
+/-- The hypotheses of `order_valid` / `roundtrip_go_writer` are satisfiable by a table with sharing (the root refers
+twice to the same child), keyed by the row number. -/
+example : ∃ (t : Table) (roots : List Nat) (key : Nat → Option Nat),
+    ValidLayout t roots ∧ Order.KeyInjOn t key ∧ t.size = 2 :=
+  ⟨Order.exT, [0], fun i => some i, Order.exT_valid, Order.exT_key, rfl⟩
 
 /-- Not vacuous (tests on literals): a two-row table with a shared, non-byte-aligned, child is written by the
 reference writer with the idx+crc magic, 2-byte references, 3-byte offsets, and read back. -/
